@@ -14,7 +14,7 @@ use algebra_mc::fpaccess::FpAccess;
 use algebra_mc::refmodel::fieldmodel::{prime_to_u64, FieldModel, Fp2Model, PrimeModel};
 use algebra_mc::refmodel::zmod::*;
 use algebra_mc::toycurve::{SwToy, TeToy};
-use ark_ec::pairing::{Pairing, PairingOutput};
+use ark_ec::pairing::{MillerLoopOutput, Pairing, PairingOutput};
 use ark_ec::{short_weierstrass as sw, twisted_edwards as te, AffineRepr, CurveGroup};
 use ark_ff::{
     AdditiveGroup, BigInt, BigInteger, FftField, CubicExtConfig, CubicExtField, Field, Fp, FpConfig, One, PrimeField, QuadExtConfig, QuadExtField, Zero,
@@ -53,6 +53,19 @@ fn rel<T: Eq + Hash>(loc: &mut Loc, x: &T, y: &T, same: bool, what: &dyn Fn() ->
     }
 }
 
+/// Two objects about which the property does not say whether they are "the same" (e.g. the same terms declared
+/// with a different `num_vars`): only consistency is demanded - `==` symmetric, `!=` its negation, and IF the
+/// library calls them equal they must hash equally.  Returns the library's answer (kept as a metric class).
+fn rel_consistent<T: Eq + Hash>(loc: &mut Loc, x: &T, y: &T, what: &dyn Fn() -> String) -> bool {
+    let (e1, e2, n1, n2) = (x == y, y == x, x != y, y != x);
+    loc.check_at("eq_consistent", e1 == e2 && n1 != e1 && n2 != e2, || format!("{}: x==y:{e1} y==x:{e2} x!=y:{n1} y!=x:{n2} are not one symmetric relation and its negation", what()));
+    if e1 && e2 {
+        let (hx, hy) = (dig(x), dig(y));
+        loc.check_at("hash", hx == hy, || format!("{}: the library calls the values equal but they hash differently ({hx:016x} vs {hy:016x})", what()));
+    }
+    e1
+}
+
 /// cmp / partial_cmp / the four operators, both directions
 fn ord_rel<T: Ord>(loc: &mut Loc, x: &T, y: &T, want: Ordering, what: &dyn Fn() -> String) {
     let c = x.cmp(y);
@@ -83,6 +96,8 @@ trait Coord: Field {
     fn modulus() -> BigUint;
     fn build(m: &Mont, c: &[BigUint]) -> Self;
     fn raws(&self, out: &mut Vec<u64>);
+    /// arities of the tower levels, outermost first (nothing for a prime field)
+    fn arities(out: &mut Vec<usize>);
 }
 impl<P: FpConfig<N>, const N: usize> Coord for Fp<P, N> {
     const DEG: usize = 1;
@@ -100,6 +115,7 @@ impl<P: FpConfig<N>, const N: usize> Coord for Fp<P, N> {
     fn raws(&self, out: &mut Vec<u64>) {
         out.extend_from_slice(&(self.0).0);
     }
+    fn arities(_out: &mut Vec<usize>) {}
 }
 impl<P: QuadExtConfig> Coord for QuadExtField<P>
 where
@@ -118,6 +134,10 @@ where
     fn raws(&self, out: &mut Vec<u64>) {
         self.c0.raws(out);
         self.c1.raws(out);
+    }
+    fn arities(out: &mut Vec<usize>) {
+        out.push(2);
+        <P::BaseField as Coord>::arities(out);
     }
 }
 impl<P: CubicExtConfig> Coord for CubicExtField<P>
@@ -143,6 +163,10 @@ where
         self.c1.raws(out);
         self.c2.raws(out);
     }
+    fn arities(out: &mut Vec<usize>) {
+        out.push(3);
+        <P::BaseField as Coord>::arities(out);
+    }
 }
 fn raw_of<F: Coord>(x: &F) -> Vec<u64> {
     let mut v = Vec::with_capacity(F::DEG * F::NL);
@@ -159,8 +183,8 @@ fn coords_raw<F: Coord>(m: &Mont, raw: &[u64]) -> Vec<BigUint> {
 fn coords<F: Coord>(m: &Mont, x: &F) -> Vec<BigUint> {
     coords_raw::<F>(m, &raw_of(x))
 }
-/// documented lexicographic order of the extension towers, most significant = highest coefficient
-/// (for a prime field: the integer order)
+/// lexicographic order with the highest coefficient most significant at every level (for a prime field: the
+/// integer order); only used to compute branch classes from the inputs
 fn model_cmp<T: Ord>(a: &[T], b: &[T]) -> Ordering {
     for k in (0..a.len()).rev() {
         match a[k].cmp(&b[k]) {
@@ -169,6 +193,91 @@ fn model_cmp<T: Ord>(a: &[T], b: &[T]) -> Ordering {
         }
     }
     Ordering::Equal
+}
+
+/// The rustdoc of `Ord for QuadExtField` / `Ord for CubicExtField` only says "elements are ordered
+/// lexicographically" - it does not say which coefficient is the most significant one.  The property therefore
+/// allows, per tower level, either "highest coefficient first" or "lowest coefficient first", as long as it is
+/// the SAME choice for all pairs of one type.  `hi_first[l]` is the choice of level l (outermost first); it is
+/// read off ONE probe pair per level (`calibrate_order`) and then demanded of every pair of the sweep.
+#[derive(Clone, Debug)]
+struct Orient {
+    ar: Vec<usize>,
+    hi_first: Vec<bool>,
+    /// probe pairs (coordinates c0 first) and whether the library gave one of the two legal answers on them
+    probes: Vec<(Vec<BigUint>, Vec<BigUint>, bool)>,
+}
+impl Orient {
+    fn cmp<T: Ord>(&self, a: &[T], b: &[T]) -> Ordering {
+        fn rec<T: Ord>(a: &[T], b: &[T], ar: &[usize], hi: &[bool]) -> Ordering {
+            if ar.is_empty() {
+                return a[0].cmp(&b[0]);
+            }
+            let k = ar[0];
+            let s = a.len() / k;
+            for j in 0..k {
+                let j = if hi[0] { k - 1 - j } else { j };
+                match rec(&a[j * s..(j + 1) * s], &b[j * s..(j + 1) * s], &ar[1..], &hi[1..]) {
+                    Ordering::Equal => continue,
+                    o => return o,
+                }
+            }
+            Ordering::Equal
+        }
+        rec(a, b, &self.ar, &self.hi_first)
+    }
+    fn describe(&self) -> String {
+        self.ar.iter().zip(&self.hi_first).map(|(k, h)| format!("{}:{}", if *k == 2 { "quadratic" } else { "cubic" }, if *h { "highest-coefficient-first" } else { "lowest-coefficient-first" })).collect::<Vec<_>>().join(" / ")
+    }
+}
+/// Probe of level l: both elements live in coefficient 0 of every outer level (all other outer coefficients are
+/// zero on both sides, so the outer levels tie whatever their orientation is); a has the lowest coordinate of the
+/// level's TOP coefficient = 1, b has the lowest coordinate of the level's coefficient 0 = 1, all other
+/// coordinates 0.  Every lexicographic order with the integer order at the bottom says "zero < an element with
+/// exactly one coordinate equal to 1", so: a > b iff the level compares its highest coefficient first.
+fn calibrate_order<F: Coord>(m: &Mont) -> Orient {
+    let mut ar = Vec::new();
+    F::arities(&mut ar);
+    let deg = F::DEG;
+    let mut hi_first = vec![true; ar.len()];
+    let mut probes = Vec::new();
+    let mut block = deg;
+    for (l, k) in ar.iter().enumerate() {
+        let s = block / k;
+        let mut ca = vec![BigUint::zero(); deg];
+        let mut cb = vec![BigUint::zero(); deg];
+        ca[(k - 1) * s] = BigUint::one();
+        cb[0] = BigUint::one();
+        let (a, b) = (F::build(m, &ca), F::build(m, &cb));
+        let ok = match catch_unwind(AssertUnwindSafe(|| (a.cmp(&b), b.cmp(&a)))) {
+            Ok((Ordering::Greater, Ordering::Less)) => true,
+            Ok((Ordering::Less, Ordering::Greater)) => {
+                hi_first[l] = false;
+                true
+            }
+            _ => false,
+        };
+        probes.push((ca, cb, ok));
+        block = s;
+    }
+    Orient { ar, hi_first, probes }
+}
+/// the calibration probes as cases of their own (an answer that is neither of the two legal ones is a violation
+/// that replays by itself) + the observed orientation as a metric
+fn report_orientation<F: Coord>(ctx: &mut Ctx, name: &str, m: &Mont, o: &Orient) {
+    ctx.sweep(&format!("ext_order_calibration/{name}"), o.probes.len() as u64, |i, loc| {
+        let (ca, cb, _) = &o.probes[i as usize];
+        let (a, b) = (F::build(m, ca), F::build(m, cb));
+        let (c, r) = (a.cmp(&b), b.cmp(&a));
+        loc.class("ext_order_orientation_probe");
+        loc.check_at("ord", c != Ordering::Equal && r == c.reverse(), || {
+            format!("{name}: level-{i} probe a={ca:?} b={cb:?} (coordinates c0 first; two distinct elements): cmp={c:?} reverse cmp={r:?} is not a strict antisymmetric answer")
+        });
+    });
+    for h in &o.hi_first {
+        ctx.add_class(if *h { "ext_order_observed:highest_coefficient_first(metric)" } else { "ext_order_observed:lowest_coefficient_first(metric)" }, 1);
+    }
+    ctx.bound(&format!("ext_order_observed/{name}"), o.describe());
 }
 
 // ------------------------------------------------------------------ operation sequences
@@ -676,12 +785,17 @@ fn ext_checks<F: Coord>(ctx: &mut Ctx, name: &str, sp: &ExtSpace<F>, npairs: u64
     let m = mont_of::<F>();
     let deg = F::DEG;
     let chunk = deg / F::ARITY; // coordinates of the outermost highest coefficient
+    let orient = calibrate_order::<F>(&m);
+    report_orientation::<F>(ctx, name, &m, &orient);
+    let orient = &orient;
+    let all_lo = Orient { ar: orient.ar.clone(), hi_first: vec![false; orient.ar.len()], probes: Vec::new() };
     ctx.sweep(&format!("ext_order/{name}"), npairs, |i, loc| {
         let (x, y) = pair(i);
         let (a, b) = (sp.elems[x], sp.elems[y]);
         let (ka, kb) = (&sp.keys[x], &sp.keys[y]);
         let same = ka == kb;
-        let want = model_cmp(ka, kb);
+        // the one lexicographic order (per-level orientation fixed by the probes) for ALL pairs of this type
+        let want = orient.cmp(ka, kb);
         let what = || format!("{name}: a={} b={} (coordinates c0 first)", sp.show(x), sp.show(y));
         if loc.sampling() {
             loc.sample(what());
@@ -693,8 +807,13 @@ fn ext_checks<F: Coord>(ctx: &mut Ctx, name: &str, sp: &ExtSpace<F>, npairs: u64
             loc.class_if(ka[1..] == kb[1..], "ext_order_decided_by_lowest_coordinate");
         } else {
             loc.class("ext_order_decided_by_high_coeff");
-            // the lower coefficients would give the opposite answer
-            loc.class_if(model_cmp(&ka[..deg - chunk], &kb[..deg - chunk]) == want.reverse(), "ext_order_high_coeff_overrides_low");
+            // the lower coefficients would give the opposite answer (classes are computed with the fixed
+            // highest-first model order, i.e. from the inputs only)
+            loc.class_if(model_cmp(&ka[..deg - chunk], &kb[..deg - chunk]) == model_cmp(ka, kb).reverse(), "ext_order_high_coeff_overrides_low");
+        }
+        // pairs on which the admissible orientations disagree: these pin "the same choice for all pairs"
+        if !same {
+            loc.class_if(all_lo.cmp(ka, kb) != model_cmp(ka, kb), "ext_order_orientation_discriminating");
         }
         rel(loc, &a, &b, same, &what);
         ord_rel(loc, &a, &b, want, &what);
@@ -735,7 +854,7 @@ fn ext_checks<F: Coord>(ctx: &mut Ctx, name: &str, sp: &ExtSpace<F>, npairs: u64
     ctx.sweep(&format!("ext_containers/{name}"), 1, |_, loc| {
         let n = sp.elems.len();
         let mut order: Vec<usize> = (0..n).collect();
-        order.sort_by(|x, y| model_cmp(&sp.keys[*x], &sp.keys[*y]));
+        order.sort_by(|x, y| orient.cmp(&sp.keys[*x], &sp.keys[*y]));
         let want: Vec<Vec<u64>> = order.iter().map(|k| raw_of(&sp.elems[*k])).collect();
         // scrambled copy, sorted by the library
         let mut mult = 1_000_003u64 % n as u64;
@@ -745,7 +864,7 @@ fn ext_checks<F: Coord>(ctx: &mut Ctx, name: &str, sp: &ExtSpace<F>, npairs: u64
         let mut v: Vec<F> = (0..n as u64).map(|k| sp.elems[((k * mult + 5) % n as u64) as usize]).collect();
         v.sort();
         loc.ops(n as u64);
-        loc.check_at("sort", v.iter().map(raw_of).collect::<Vec<_>>() == want, || format!("{name}: slice::sort does not produce the documented lexicographic order (highest coefficient first)"));
+        loc.check_at("sort", v.iter().map(raw_of).collect::<Vec<_>>() == want, || format!("{name}: slice::sort does not produce the lexicographic order observed on the probe pairs ({})", orient.describe()));
         let mut set: HashSet<F, Bh> = HashSet::default();
         let mut bt: BTreeSet<F> = BTreeSet::new();
         let mut ins = 0u64;
@@ -765,7 +884,7 @@ fn ext_checks<F: Coord>(ctx: &mut Ctx, name: &str, sp: &ExtSpace<F>, npairs: u64
         loc.ops(ins);
         loc.class("hashmap_dedup");
         loc.check_at("hashset", set.len() == n, || format!("{name}: {} representations of {n} elements give {} HashSet keys", ins + n as u64, set.len()));
-        loc.check_at("btreeset", bt.iter().map(raw_of).collect::<Vec<_>>() == want, || format!("{name}: BTreeSet has {} keys (want {n}) or is not in the documented order", bt.len()));
+        loc.check_at("btreeset", bt.iter().map(raw_of).collect::<Vec<_>>() == want, || format!("{name}: BTreeSet has {} keys (want {n}) or is not in the lexicographic order observed on the probe pairs ({})", bt.len(), orient.describe()));
     });
 }
 
@@ -1237,6 +1356,197 @@ where
     });
 }
 
+// ------------------------------------------------------------------ toy curves over F_49 / F_169 (extension base field)
+mod ext_curves {
+    use algebra_mc::toy::gen_fields::{D13, D43};
+    use algebra_mc::toy::gen_towers::{T13Fq2, T7Fq2};
+    use ark_ec::{short_weierstrass as sw, CurveConfig};
+    use ark_ff::MontFp;
+    macro_rules! ext_sw {
+        ($name:ident, $F:ty, $R:ty, $h:expr, $hinv:expr, $a:expr, $b:expr, $gx:expr, $gy:expr) => {
+            #[derive(Clone, Copy, Debug, Default, PartialEq, Eq)]
+            pub struct $name;
+            impl CurveConfig for $name {
+                type BaseField = $F;
+                type ScalarField = $R;
+                const COFACTOR: &'static [u64] = &[$h];
+                const COFACTOR_INV: $R = MontFp!($hinv);
+            }
+            impl sw::SWCurveConfig for $name {
+                const COEFF_A: $F = $a;
+                const COEFF_B: $F = $b;
+                const GENERATOR: sw::Affine<Self> = sw::Affine::new_unchecked($gx, $gy);
+            }
+        };
+    }
+    // y^2 = x^3 + (2+3u) over F_7[u]/(u^2+1): 52 = 4 * 13 points, 2-torsion (same parameters as c03's SwQ7A0)
+    ext_sw!(SwQ7A0, T7Fq2, D13, 4, "10", T7Fq2::new(MontFp!("0"), MontFp!("0")), T7Fq2::new(MontFp!("2"), MontFp!("3")), T7Fq2::new(MontFp!("1"), MontFp!("4")), T7Fq2::new(MontFp!("2"), MontFp!("0")));
+    // y^2 = x^3 + u x + (2+2u) over F_13[u]/(u^2-2): 172 = 4 * 43 points (same parameters as c03's SwQ13A)
+    ext_sw!(SwQ13A, T13Fq2, D43, 4, "11", T13Fq2::new(MontFp!("0"), MontFp!("1")), T13Fq2::new(MontFp!("2"), MontFp!("2")), T13Fq2::new(MontFp!("1"), MontFp!("2")), T13Fq2::new(MontFp!("5"), MontFp!("9")));
+}
+
+/// F_p[u]/(u^2 - beta) on u64 pairs (c0, c1)
+#[derive(Clone, Copy)]
+struct Q2 {
+    p: u64,
+    beta: u64,
+}
+type Q2e = (u64, u64);
+impl Q2 {
+    fn add(&self, a: Q2e, b: Q2e) -> Q2e {
+        ((a.0 + b.0) % self.p, (a.1 + b.1) % self.p)
+    }
+    fn neg(&self, a: Q2e) -> Q2e {
+        ((self.p - a.0) % self.p, (self.p - a.1) % self.p)
+    }
+    fn mul(&self, a: Q2e, b: Q2e) -> Q2e {
+        let p = self.p;
+        ((a.0 * b.0 + self.beta * (a.1 * b.1 % p)) % p, (a.0 * b.1 + a.1 * b.0) % p)
+    }
+    fn elem(&self, i: u64) -> Q2e {
+        (i % self.p, i / self.p)
+    }
+}
+
+/// every point of a toy curve over F_{p^2} in several projective scalings, INCLUDING Z outside the prime subfield:
+/// `==`, Hash, Affine-vs-Projective for all ordered pairs of representatives; normalisation routes per representative
+fn sw_ext_toy<P: sw::SWCurveConfig>(ctx: &mut Ctx, name: &str, f: Q2, want_points: usize)
+where
+    P::BaseField: Coord,
+{
+    type B<P> = <P as ark_ec::CurveConfig>::BaseField;
+    let m = mont_of::<B<P>>();
+    let big = |e: Q2e| vec![BigUint::from(e.0), BigUint::from(e.1)];
+    let fe = |e: Q2e| -> B<P> { <B<P> as Coord>::build(&m, &big(e)) };
+    let dec = |x: &B<P>| -> Q2e {
+        let c = coords(&m, x);
+        (c[0].to_u64_digits().first().copied().unwrap_or(0), c[1].to_u64_digits().first().copied().unwrap_or(0))
+    };
+    let (a, b) = (dec(&P::COEFF_A), dec(&P::COEFF_B));
+    let q = f.p * f.p;
+    // brute-force point list in the model
+    let mut pts: Vec<Option<(Q2e, Q2e)>> = vec![None];
+    for xi in 0..q {
+        let x = f.elem(xi);
+        let rhs = f.add(f.add(f.mul(f.mul(x, x), x), f.mul(a, x)), b);
+        for yi in 0..q {
+            let y = f.elem(yi);
+            if f.mul(y, y) == rhs {
+                pts.push(Some((x, y)));
+            }
+        }
+    }
+    let n = pts.len();
+    ctx.validate(n == want_points, &format!("{name}: brute-force point count {n} (want {want_points})"));
+    ctx.validate(<B<P> as Coord>::DEG == 2 && <B<P> as Coord>::modulus() == BigUint::from(f.p), &format!("{name}: base field is a quadratic extension of F_{}", f.p));
+    let g = P::GENERATOR;
+    ctx.validate(pts.contains(&Some((dec(&g.x), dec(&g.y)))), &format!("{name}: generator is on the curve"));
+    // Z values: prime-subfield ones and genuinely quadratic ones
+    let zs: Vec<Q2e> = vec![(1, 0), (2, 0), (f.p - 1, 0), (0, 1), (1, 1), (3, 2)];
+    let junk: Vec<(Q2e, Q2e)> = vec![((0, 0), (0, 0)), ((1, 0), (1, 0)), ((0, 1), (2, 3)), ((3, 2), (0, 0))];
+    // (point index, representative, z index or usize::MAX for identity forms, canonical identity)
+    let mut reps: Vec<(usize, sw::Projective<P>, usize, bool)> = Vec::new();
+    reps.push((0, sw::Projective::<P>::zero(), usize::MAX, true));
+    reps.push((0, sw::Projective::<P>::default(), usize::MAX, true));
+    for (jx, jy) in &junk {
+        reps.push((0, sw::Projective::<P>::new_unchecked(fe(*jx), fe(*jy), fe((0, 0))), usize::MAX, (*jx, *jy) == ((1, 0), (1, 0))));
+    }
+    for (i, pt) in pts.iter().enumerate() {
+        if let Some((x, y)) = pt {
+            for (k, z) in zs.iter().enumerate() {
+                let z2 = f.mul(*z, *z);
+                reps.push((i, sw::Projective::<P>::new_unchecked(fe(f.mul(*x, z2)), fe(f.mul(*y, f.mul(z2, *z))), fe(*z)), k, false));
+            }
+        }
+    }
+    let aff = |i: usize| -> sw::Affine<P> {
+        match pts[i] {
+            None => sw::Affine::<P>::identity(),
+            Some((x, y)) => sw::Affine::<P>::new_unchecked(fe(x), fe(y)),
+        }
+    };
+    // model decoding of a projective representative: (X/Z^2, Y/Z^3) by brute-force search of the matching point
+    let denote = |r: &sw::Projective<P>| -> Option<usize> {
+        let (x, y, z) = (dec(&r.x), dec(&r.y), dec(&r.z));
+        if z == (0, 0) {
+            return Some(0);
+        }
+        let z2 = f.mul(z, z);
+        let z3 = f.mul(z2, z);
+        pts.iter().position(|p| matches!(p, Some((ax, ay)) if f.mul(*ax, z2) == x && f.mul(*ay, z3) == y))
+    };
+    ctx.validate(reps.iter().all(|r| denote(&r.1) == Some(r.0)), &format!("{name}: representatives decode to their oracle index"));
+    let nr = reps.len() as u64;
+    ctx.bound(&format!("curve_ext/{name}"), format!("{n} points over F_{}; Z in {zs:?} (pairs (c0, c1); three outside the prime subfield); {} identity representations; {nr} representatives, all ordered pairs", q, junk.len() + 2));
+    ctx.sweep(&format!("sw_ext_reps/{name}"), nr, |i, loc| {
+        let (idx, pt, zk, canon) = reps[i as usize];
+        let what = || format!("{name}: point #{idx} {:?} as (X,Y,Z)=({},{},{})", pts[idx], pt.x, pt.y, pt.z);
+        if loc.sampling() {
+            loc.sample(what());
+        }
+        loc.class("curve_over_extension_field");
+        loc.class_if(idx == 0 && !canon, "identity_noncanonical");
+        loc.class_if(zk != usize::MAX && zk != 0, "projective_rescaled");
+        loc.class_if(zk != usize::MAX && zs[zk].1 != 0, "projective_rescaled_by_non_subfield_Z");
+        let isid = idx == 0;
+        loc.check_at("predicates", pt.is_zero() == isid && (pt == sw::Projective::<P>::zero()) == isid, || format!("{}: is_zero / == zero() disagree with the oracle (identity={isid})", what()));
+        let want = aff(idx);
+        let routes: Vec<(&str, sw::Affine<P>)> = vec![
+            ("into_affine", pt.into_affine()),
+            ("Affine::from", sw::Affine::<P>::from(pt)),
+            ("normalize_batch[0]", sw::Projective::<P>::normalize_batch(&[pt, sw::Projective::<P>::zero(), pt])[0]),
+            ("normalize_batch[2]", sw::Projective::<P>::normalize_batch(&[pt, sw::Projective::<P>::zero(), pt])[2]),
+        ];
+        for (nm, a) in &routes {
+            let ok = if isid { a.infinity } else { !a.infinity && Some((dec(&a.x), dec(&a.y))) == pts[idx] };
+            if !ok {
+                loc.fail_at("seq_value", format!("{}: `{nm}` gives affine {:?} (conversion, outside C19)", what(), a));
+                continue;
+            }
+            loc.class("equal_via_different_sequences");
+            let w = || format!("{} affine via `{nm}` = {:?} vs oracle-built affine", what(), a);
+            rel(loc, a, &want, true, &w);
+            rel(loc, &pt, &a.into_group(), true, &|| format!("{} vs `{nm}`.into_group()", what()));
+            loc.check_at("eq_affine_projective", (*a == pt) && (pt == *a), || format!("{}: Affine == Projective of the same point is false", w()));
+        }
+    });
+    ctx.sweep(&format!("sw_ext_pairs/{name}"), nr * nr, |i, loc| {
+        let [iq, ip] = unrank(i, [nr, nr]);
+        let (ia, pa, za, ca) = reps[ip as usize];
+        let (ib, pb, zb, cb) = reps[iq as usize];
+        let same = ia == ib;
+        let what = || format!("{name}: P=#{ia} {:?} as ({},{},{}) Q=#{ib} {:?} as ({},{},{})", pts[ia], pa.x, pa.y, pa.z, pts[ib], pb.x, pb.y, pb.z);
+        if loc.sampling() {
+            loc.sample(what());
+        }
+        loc.class("curve_over_extension_field");
+        if same {
+            loc.class_if(ia != 0 && za != zb, "projective_rescaled");
+            loc.class_if(ia != 0 && za != zb && (zs[za].1 != 0 || zs[zb].1 != 0), "projective_rescaled_by_non_subfield_Z");
+            loc.class_if(ia == 0 && (!ca || !cb), "identity_noncanonical");
+        } else {
+            loc.class_if(ia == 0 || ib == 0, "identity_vs_finite");
+            loc.class_if(matches!((pts[ia], pts[ib]), (Some((xa, ya)), Some((xb, yb))) if xa == xb && ya == f.neg(yb)), "opposite_points");
+        }
+        rel(loc, &pa, &pb, same, &what);
+        let aq = aff(ib);
+        let (e1, e2) = (pa == aq, aq == pa);
+        loc.class_if(same, "affine_vs_projective");
+        loc.check_at("eq_affine_projective", e1 == same && e2 == same, || format!("{}: Projective==Affine(Q):{e1} Affine(Q)==Projective:{e2}, model same={same}", what()));
+    });
+    ctx.sweep(&format!("sw_ext_containers/{name}"), 1, |_, loc| {
+        let mut set: HashSet<sw::Projective<P>, Bh> = HashSet::default();
+        let mut aset: HashSet<sw::Affine<P>, Bh> = HashSet::default();
+        for (_, pt, _, _) in &reps {
+            set.insert(*pt);
+            aset.insert(pt.into_affine());
+            loc.op();
+        }
+        loc.class("hashmap_dedup");
+        loc.check_at("hashset", set.len() == n && aset.len() == n, || format!("{name}: all representations of the {n} points give {} HashSet<Projective> keys and {} HashSet<Affine> keys", set.len(), aset.len()));
+    });
+}
+
 // ------------------------------------------------------------------ shipped curves (A)
 /// a "generic-looking" non-zero element with every base-prime-field coordinate set
 fn generic_elem<F: Field>() -> F {
@@ -1520,6 +1830,9 @@ where
     let n = outs.len() as u64;
     let deg = <E::TargetField as Coord>::DEG;
     let chunk = deg / <E::TargetField as Coord>::ARITY;
+    let orient = calibrate_order::<E::TargetField>(&m);
+    report_orientation::<E::TargetField>(ctx, &format!("{name}::TargetField"), &m, &orient);
+    let orient = &orient;
     ctx.bound(&format!("pairing/{name}"), format!("{n} outputs from a,b in {{0,1,2,3,r-1}} x forms e(aG,bH), e(abG,H), e(G,abH), e(G,H)*ab, (e*a)*b, multi_pairing, group-operation forms; all ordered pairs"));
     ctx.sweep(&format!("pairing_pairs/{name}"), n * n, |i, loc| {
         let [iy, ix] = unrank(i, [n, n]);
@@ -1542,7 +1855,7 @@ where
             loc.class("ext_order_tie_on_high_coeff");
         }
         rel(loc, &x.3, &y.3, same, &what);
-        ord_rel(loc, &x.3, &y.3, model_cmp(cx, cy), &what);
+        ord_rel(loc, &x.3, &y.3, orient.cmp(cx, cy), &what);
         let is_id = cx[0].is_one() && cx[1..].iter().all(|c| c.is_zero());
         loc.class_if(is_id, "pairing_output_identity");
         let v = x.3;
@@ -1563,11 +1876,58 @@ where
             }
             loc.op();
         }
-        distinct.sort_by(|a, b| model_cmp(a, b));
+        distinct.sort_by(|a, b| orient.cmp(a, b));
         loc.class("hashmap_dedup");
         loc.check_at("hashset", set.len() == distinct.len(), || format!("{name}: {} outputs denoting {} values give {} HashSet keys", outs.len(), distinct.len(), set.len()));
         let got: Vec<Vec<BigUint>> = bt.iter().map(|o| coords(&m, &o.0)).collect();
         loc.check_at("btreeset", got.iter().collect::<Vec<_>>() == distinct, || format!("{name}: BTreeSet has {} keys (want {}) or is not in target-field order", got.len(), distinct.len()));
+    });
+    // ---- MillerLoopOutput (Eq + Ord, no Hash): a wrapper of a target-field element; same iff the decoded
+    // coordinates agree, ordered like the target field
+    let one = E::TargetField::one();
+    let mut mls: Vec<(String, MillerLoopOutput<E>)> = Vec::new();
+    let mut seen_vals: Vec<&Vec<BigUint>> = Vec::new();
+    for (o, c) in outs.iter().zip(&cs) {
+        if seen_vals.contains(&c) || seen_vals.len() >= 24 {
+            continue;
+        }
+        seen_vals.push(c);
+        mls.push((format!("MillerLoopOutput(value of {})", o.2), MillerLoopOutput::<E>(o.3 .0)));
+        mls.push((format!("MillerLoopOutput((value of {}) * 1)", o.2), MillerLoopOutput::<E>(o.3 .0 * one)));
+    }
+    let g1p = g1.into_group();
+    let g2p = g2.into_group();
+    let computed: Vec<(&str, Box<dyn Fn() -> MillerLoopOutput<E>>)> = vec![
+        ("miller_loop(G,H)", Box::new(|| E::miller_loop(g1, g2))),
+        ("multi_miller_loop([G],[H])", Box::new(|| E::multi_miller_loop([g1], [g2]))),
+        ("miller_loop(G,H) copied through (f+1)-1", Box::new(|| MillerLoopOutput::<E>((E::miller_loop(g1, g2).0 + one) - one))),
+        ("miller_loop(G,H) * ScalarField::one()", Box::new(|| E::miller_loop(g1, g2) * E::ScalarField::one())),
+        ("miller_loop(2G,H)", Box::new(|| E::miller_loop(g1p.double().into_affine(), g2))),
+        ("miller_loop(G,2H)", Box::new(|| E::miller_loop(g1, g2p.double().into_affine()))),
+        ("multi_miller_loop([G,G],[H,H])", Box::new(|| E::multi_miller_loop([g1, g1], [g2, g2]))),
+    ];
+    for (nm, f) in &computed {
+        match catch_unwind(AssertUnwindSafe(|| f())) {
+            Ok(v) => mls.push((nm.to_string(), v)),
+            Err(_) => ctx.add_class("miller_loop_panics(C06 scope, skipped)", 1),
+        }
+    }
+    let mcs: Vec<Vec<BigUint>> = mls.iter().map(|x| coords(&m, &x.1 .0)).collect();
+    let nm = mls.len() as u64;
+    ctx.bound(&format!("miller_loop_output/{name}"), format!("{nm} values: wrapped target-field values of the pairing outputs (plain and through *1) and Miller loops of (G,H), (2G,H), (G,2H) through miller_loop / multi_miller_loop / copies; all ordered pairs"));
+    ctx.sweep(&format!("miller_loop_output_pairs/{name}"), nm * nm, |i, loc| {
+        let [iy, ix] = unrank(i, [nm, nm]);
+        let (x, y) = (&mls[ix as usize], &mls[iy as usize]);
+        let (cx, cy) = (&mcs[ix as usize], &mcs[iy as usize]);
+        let what = || format!("{name}: {} vs {}", x.0, y.0);
+        if loc.sampling() {
+            loc.sample(what());
+        }
+        let same = cx == cy;
+        loc.class_if(same && ix != iy, "equal_via_different_sequences");
+        loc.class_if(same, "pair_equal");
+        rel_eq(loc, &x.1, &y.1, same, &what);
+        ord_rel(loc, &x.1, &y.1, orient.cmp(cx, cy), &what);
     });
 }
 
@@ -1606,12 +1966,14 @@ fn guard<R>(loc: &mut Loc, nm: &str, what: &dyn Fn() -> String, f: impl FnOnce()
 
 /// Sparse MULTIVARIATE polynomials over D5 in two variables: all coefficient vectors over {0, 1, 4} on the
 /// monomials {1, x0, x1, x0 x1, x0^2}; results of different operation sequences that denote the same
-/// polynomial must be == and hash-equal (also when declared with a larger `num_vars`, which `==` ignores).
+/// polynomial must be == and hash-equal (the same terms declared with a larger `num_vars`: only `==` => equal hashes).
 fn mv_poly_checks(ctx: &mut Ctx) {
     use ark_poly::multivariate::{SparsePolynomial as MvP, SparseTerm, Term};
     use ark_poly::DenseMVPolynomial;
     type MP = MvP<D5, SparseTerm>;
     let monos: Vec<Vec<(usize, usize)>> = vec![vec![], vec![(0, 1)], vec![(1, 1)], vec![(0, 1), (1, 1)], vec![(0, 2)]];
+    // the same monomials as unnormalised `SparseTerm::new` inputs: zero powers, reversed variables, split powers
+    let monos_unnorm: Vec<Vec<(usize, usize)>> = vec![vec![(1, 0)], vec![(1, 0), (0, 1)], vec![(1, 1), (0, 0)], vec![(1, 1), (0, 1)], vec![(0, 1), (0, 1)]];
     let alpha = [0u64, 1, 4];
     let n = 3u64.pow(5);
     let build = |cv: &[u64], nv: usize| -> MP { MP::from_coefficients_vec(nv, cv.iter().enumerate().filter(|(_, c)| **c != 0).map(|(i, c)| (f5(*c), SparseTerm::new(monos[i].clone()))).collect()) };
@@ -1649,7 +2011,21 @@ fn mv_poly_checks(ctx: &mut Ctx) {
         })));
         rs.push(("-(-a)", guard(loc, "-(-a)", w, || -(-a0.clone()))));
         rs.push(("&a+&zero", guard(loc, "&a+&zero", w, || &a0 + &zero)));
-        rs.push(("same terms, num_vars = 3", guard(loc, "from_coefficients_vec(3, ..)", w, || build(&ca, 3))));
+        // the same terms declared with a larger num_vars: the property does not say whether that is "the same
+        // polynomial" (either answer of == is fine); only "== implies equal hashes" is demanded
+        if let Some(a3) = guard(loc, "from_coefficients_vec(3, ..)", w, || build(&ca, 3)) {
+            let eq = rel_consistent(loc, &a0, &a3, &|| format!("{}: a declared with num_vars = 2 vs the same terms declared with num_vars = 3", what()));
+            loc.class(if eq { "different_num_vars:library_says_equal(metric)" } else { "different_num_vars:library_says_different(metric)" });
+            // and within num_vars = 3 the usual relation holds
+            if ia == ib || ib < 3 {
+                if let Some(b3) = guard(loc, "from_coefficients_vec(3, ..)", w, || build(&cb, 3)) {
+                    rel(loc, &a3, &b3, ca == cb, &|| format!("{}: both declared with num_vars = 3", what()));
+                }
+            }
+        }
+        rs.push(("same terms, SparseTerm::new given unnormalised inputs", guard(loc, "SparseTerm::new(unnormalised)", w, || {
+            MP::from_coefficients_vec(2, ca.iter().enumerate().filter(|(_, c)| **c != 0).map(|(i, c)| (f5(*c), SparseTerm::new(monos_unnorm[i].clone()))).collect())
+        })));
         rs.push(("same terms listed in reverse order", guard(loc, "from_coefficients_vec(reversed)", w, || {
             MP::from_coefficients_vec(2, ca.iter().enumerate().rev().filter(|(_, c)| **c != 0).map(|(i, c)| (f5(*c), SparseTerm::new(monos[i].clone()))).collect())
         })));
@@ -1954,8 +2330,11 @@ fn mle_checks(ctx: &mut Ctx) {
                 let Some(r) = r else { continue };
                 let tr: Vec<u64> = r.evaluations.iter().map(d5).collect();
                 if r.num_vars != nv {
-                    // the library's documented special zero (num_vars = 0): a different object unless nv = 0
+                    // the library's documented special zero (num_vars = 0): whether it "is" the n-variable object is
+                    // not the property's business - only `==` => equal hashes is demanded
                     loc.class("mle_special_zero_skipped");
+                    let eq = rel_consistent(loc, &a0, r, &|| format!("{} via `{nm}` (result has num_vars = {})", what(), r.num_vars));
+                    loc.class(if eq { "different_num_vars:library_says_equal(metric)" } else { "different_num_vars:library_says_different(metric)" });
                     continue;
                 }
                 if tr != ta {
@@ -1972,6 +2351,8 @@ fn mle_checks(ctx: &mut Ctx) {
                     let Some(r) = r else { continue };
                     if r.num_vars != nv {
                         loc.class("mle_special_zero_skipped");
+                        let eq = rel_consistent(loc, &z0, &r, &|| format!("{}: `{nm}` (result has num_vars = {}) vs the zero table of {nv} variables", what(), r.num_vars));
+                        loc.class(if eq { "different_num_vars:library_says_equal(metric)" } else { "different_num_vars:library_says_different(metric)" });
                         continue;
                     }
                     if r.evaluations.iter().any(|c| d5(c) != 0) {
@@ -2024,6 +2405,8 @@ fn mle_checks(ctx: &mut Ctx) {
                 let Some(r) = r else { continue };
                 if r.num_vars != nv {
                     loc.class("mle_special_zero_skipped");
+                    let eq = rel_consistent(loc, &a0, r, &|| format!("{} via `{nm}` (result has num_vars = {})", what(), r.num_vars));
+                    loc.class(if eq { "different_num_vars:library_says_equal(metric)" } else { "different_num_vars:library_says_different(metric)" });
                     continue;
                 }
                 if stable(r) != ta {
@@ -2059,6 +2442,499 @@ fn mle_checks(ctx: &mut Ctx) {
     }
 }
 
+// ------------------------------------------------------------------ further types: Evaluations, SparseTerm, MontgomeryAffine
+/// `==`/`!=` in both directions against the model relation (types without Hash)
+fn rel_eq<T: Eq>(loc: &mut Loc, x: &T, y: &T, same: bool, what: &dyn Fn() -> String) {
+    let (e1, e2, n1, n2) = (x == y, y == x, x != y, y != x);
+    loc.check_at("eq", e1 == same && e2 == same && n1 != same && n2 != same, || {
+        format!("{}: model says same={same}; x==y:{e1} y==x:{e2} x!=y:{n1} y!=x:{n2}", what())
+    });
+}
+/// one-limb toy prime field element <-> integer through the raw Montgomery limbs (never the library's conversions)
+fn s_dec<F: FpAccess>(m: &Mont, x: &F) -> u64 {
+    m.decode(&x.raw()).to_u64_digits().first().copied().unwrap_or(0)
+}
+fn s_enc<F: FpAccess>(m: &Mont, v: u64) -> F {
+    F::from_raw(&m.encode(&(BigUint::from(v) % &m.p)))
+}
+
+// naive polynomial arithmetic on coefficient vectors mod a small prime (constant term first, always stripped)
+fn mpow(mut b: u64, mut e: u64, p: u64) -> u64 {
+    let mut r = 1 % p;
+    b %= p;
+    while e > 0 {
+        if e & 1 == 1 {
+            r = r * b % p;
+        }
+        b = b * b % p;
+        e >>= 1;
+    }
+    r
+}
+fn padd(a: &[u64], b: &[u64], p: u64) -> Vec<u64> {
+    strip((0..a.len().max(b.len())).map(|i| (a.get(i).copied().unwrap_or(0) + b.get(i).copied().unwrap_or(0)) % p).collect())
+}
+fn psub(a: &[u64], b: &[u64], p: u64) -> Vec<u64> {
+    strip((0..a.len().max(b.len())).map(|i| (a.get(i).copied().unwrap_or(0) + p - b.get(i).copied().unwrap_or(0) % p) % p).collect())
+}
+fn pscale(a: &[u64], f: u64, p: u64) -> Vec<u64> {
+    strip(a.iter().map(|c| c * f % p).collect())
+}
+fn pmul(a: &[u64], b: &[u64], p: u64) -> Vec<u64> {
+    if a.is_empty() || b.is_empty() {
+        return Vec::new();
+    }
+    let mut r = vec![0u64; a.len() + b.len() - 1];
+    for (i, x) in a.iter().enumerate() {
+        for (j, y) in b.iter().enumerate() {
+            r[i + j] = (r[i + j] + x * y) % p;
+        }
+    }
+    strip(r)
+}
+/// schoolbook long division (b stripped and non-empty)
+fn pdivrem(a: &[u64], b: &[u64], p: u64) -> (Vec<u64>, Vec<u64>) {
+    let mut r = strip(a.to_vec());
+    let linv = mpow(*b.last().unwrap(), p - 2, p);
+    let mut q = vec![0u64; (r.len() + 1).saturating_sub(b.len())];
+    while r.len() >= b.len() {
+        let k = r.len() - b.len();
+        let c = r[r.len() - 1] * linv % p;
+        q[k] = c;
+        for (j, y) in b.iter().enumerate() {
+            r[k + j] = (r[k + j] + p - c * y % p) % p;
+        }
+        // the leading coefficient is now zero
+        r.pop();
+        r = strip(r);
+    }
+    (strip(q), r)
+}
+fn peval(a: &[u64], x: u64, p: u64) -> u64 {
+    a.iter().rev().fold(0, |acc, c| (acc * x + c) % p)
+}
+
+/// `Evaluations<F, D>` over F_17, domains of size 2: ALL evaluation vectors, all ordered pairs.  Two objects over the
+/// SAME domain are the same iff their evaluation vectors agree; objects over DIFFERENT point sets are only required
+/// to be consistent (`==` => equal hashes).  Equal objects are reached through different domain constructors and
+/// different operation sequences.
+fn evaluations_checks(ctx: &mut Ctx) {
+    use algebra_mc::toy::gen_fields::D17;
+    use ark_poly::{EvaluationDomain, Evaluations, GeneralEvaluationDomain, Radix2EvaluationDomain};
+    type R2 = Radix2EvaluationDomain<D17>;
+    type GD = GeneralEvaluationDomain<D17>;
+    type EV = Evaluations<D17, R2>;
+    type EG = Evaluations<D17, GD>;
+    let m = Mont::new(&BigUint::from(17u32), 1);
+    let e = |v: u64| -> D17 { s_enc(&m, v) };
+    let (Some(h2), Some(h2g)) = (R2::new(2), GD::new(2)) else {
+        ctx.validate(false, "evaluations: F_17 has a domain of size 2");
+        return;
+    };
+    let Some(c2) = h2.get_coset(e(3)) else {
+        ctx.validate(false, "evaluations: coset 3*H of the size-2 domain over F_17");
+        return;
+    };
+    let pts = |d: &R2| -> Vec<u64> { d.elements().map(|x| s_dec(&m, &x)).collect() };
+    ctx.validate(pts(&h2) == vec![1, 16] && pts(&c2) == vec![3, 14], "evaluations: the two domains are {1,16} and {3,14}");
+    // the same domain through other constructors
+    let alt: [Vec<Option<R2>>; 2] = [
+        vec![R2::new_coset(2, e(1)), h2.get_coset(e(1)), c2.get_coset(e(1)), R2::new(2).and_then(|d| d.get_coset((e(1) + e(5)) - e(5)))],
+        vec![R2::new_coset(2, e(3)), c2.get_coset(e(3)), h2.get_coset((e(3) + e(5)) - e(5)), h2.get_coset(e(20))],
+    ];
+    let doms = [h2, c2];
+    let offs = [1u64, 3];
+    let n = 289u64;
+    ctx.bound("evaluations/D17", "domains {1,16} and 3*{1,16} over F_17: all 289 evaluation vectors, all ordered pairs, per domain and across the two domains; ~16 construction/operation routes per object");
+    ctx.sweep("evaluations/D17/size2", n * n * 2, |i, loc| {
+        let [did, ib, ia] = unrank(i, [2, n, n]);
+        let did = did as usize;
+        let (ea, eb) = ([ia % 17, ia / 17], [ib % 17, ib / 17]);
+        let dom = doms[did];
+        let mk = |v: &[u64; 2], d: R2| EV::from_vec_and_domain(v.iter().map(|c| e(*c)).collect(), d);
+        let (a0, b0) = (mk(&ea, dom), mk(&eb, dom));
+        let what = || format!("Evaluations over F_17, domain {}*{{1,16}}: a={ea:?} b={eb:?}", offs[did]);
+        if loc.sampling() {
+            loc.sample(what());
+        }
+        loc.class_if(ea == eb, "pair_equal");
+        rel(loc, &a0, &b0, ea == eb, &what);
+        // the other point set: no verdict about ==, only consistency
+        if did == 0 {
+            let bx = mk(&eb, doms[1]);
+            let eq = rel_consistent(loc, &a0, &bx, &|| format!("{} with b over the coset 3*{{1,16}}", what()));
+            loc.class(if eq { "evaluations_other_domain:library_says_equal(metric)" } else { "evaluations_other_domain:library_says_different(metric)" });
+        }
+        let w: &dyn Fn() -> String = &what;
+        let mut rs: Vec<(&str, Option<EV>)> = Vec::new();
+        for (k, d) in alt[did].iter().enumerate() {
+            let nm = ["domain via new_coset", "domain via get_coset of the subgroup", "domain via get_coset of the coset", "domain via a computed offset"][k];
+            match d {
+                Some(d) => rs.push((nm, Some(mk(&ea, *d)))),
+                None => loc.fail_at("seq_value", format!("{}: {nm}: constructor returns None (domains, outside C19)", what())),
+            }
+        }
+        rs.push(("clone", Some(a0.clone())));
+        rs.push(("(&a+&b)-&b", guard(loc, "(&a+&b)-&b", w, || &(&a0 + &b0) - &b0)));
+        rs.push(("a+=&b;a-=&b", guard(loc, "a+=&b;a-=&b", w, || {
+            let mut t = a0.clone();
+            t += &b0;
+            t -= &b0;
+            t
+        })));
+        rs.push(("a-=&b;a+=&b", guard(loc, "a-=&b;a+=&b", w, || {
+            let mut t = a0.clone();
+            t -= &b0;
+            t += &b0;
+            t
+        })));
+        rs.push(("&a*1", guard(loc, "&a*1", w, || &a0 * e(1))));
+        rs.push(("(&a*2)*9", guard(loc, "(&a*2)*9", w, || &(&a0 * e(2)) * e(9))));
+        if !eb.contains(&0) {
+            rs.push(("(&a*&b)/&b", guard(loc, "(&a*&b)/&b", w, || &(&a0 * &b0) / &b0)));
+            rs.push(("a*=&b;a/=&b", guard(loc, "a*=&b;a/=&b", w, || {
+                let mut t = a0.clone();
+                t *= &b0;
+                t /= &b0;
+                t
+            })));
+        }
+        if ib < 2 {
+            rs.push(("interpolate_by_ref().evaluate_over_domain", guard(loc, "interpolate_by_ref;evaluate_over_domain", w, || a0.interpolate_by_ref().evaluate_over_domain(dom))));
+            rs.push(("interpolate().evaluate_over_domain_by_ref", guard(loc, "interpolate;evaluate_over_domain_by_ref", w, || a0.clone().interpolate().evaluate_over_domain_by_ref(dom))));
+        }
+        for (nm, r) in &rs {
+            let Some(r) = r else { continue };
+            let got: Vec<u64> = r.evals.iter().map(|c| s_dec(&m, c)).collect();
+            let d = r.domain();
+            if got != ea || d.size != 2 || s_dec(&m, &d.offset) != offs[did] || s_dec(&m, &d.group_gen) != 16 {
+                loc.fail_at("seq_value", format!("{}: `{nm}` gives evaluations {got:?} over a domain of size {} with offset {} (arithmetic, outside C19)", what(), d.size, s_dec(&m, &d.offset)));
+                continue;
+            }
+            loc.class("equal_via_different_sequences");
+            rel(loc, &a0, r, true, &|| format!("{} via `{nm}`", what()));
+            rel(loc, r, &b0, ea == eb, &|| format!("{}: `{nm}` vs b", what()));
+        }
+        // the same objects over GeneralEvaluationDomain (Radix2 variant)
+        if did == 0 && ib < 17 {
+            let mkg = |v: &[u64; 2], d: GD| EG::from_vec_and_domain(v.iter().map(|c| e(*c)).collect(), d);
+            let (ag, bg) = (mkg(&ea, h2g), mkg(&eb, GD::Radix2(h2)));
+            loc.class("equal_via_different_sequences");
+            rel(loc, &ag, &bg, ea == eb, &|| format!("{} over GeneralEvaluationDomain::new(2) vs GeneralEvaluationDomain::Radix2(new(2))", what()));
+        }
+    });
+}
+
+/// `SparseTerm::new` on unnormalised inputs: every monomial x0^e0 x1^e1 x2^e2 with e_i <= 2 from 6 input lists
+/// (canonical, reversed, with zero powers, powers split into duplicated entries ...): equal monomials must be ==,
+/// hash-equal and cmp-Equal, different ones !=; cmp must be a total order that does not depend on the input list.
+fn sparse_term_checks(ctx: &mut Ctx) {
+    use ark_poly::multivariate::{SparseTerm, Term};
+    let expo = |i: u64| -> Vec<usize> { unrank_vec(i, &[3, 3, 3]).iter().map(|x| *x as usize).collect() };
+    let inputs = |ev: &[usize]| -> Vec<(&'static str, Vec<(usize, usize)>)> {
+        let canon: Vec<(usize, usize)> = ev.iter().enumerate().filter(|(_, e)| **e > 0).map(|(v, e)| (v, *e)).collect();
+        let mut rev = canon.clone();
+        rev.reverse();
+        let with_zero: Vec<(usize, usize)> = [2usize, 0, 1].iter().map(|v| (*v, ev[*v])).collect();
+        let mut split: Vec<(usize, usize)> = Vec::new();
+        for round in 0..2 {
+            for v in 0..3 {
+                if ev[v] > round {
+                    split.push((v, 1));
+                }
+            }
+        }
+        let mut split_rev = split.clone();
+        split_rev.reverse();
+        split_rev.insert(0, (1, 0));
+        let mut zero_tail = canon.clone();
+        zero_tail.push((0, 0));
+        vec![("canonical", canon), ("reversed variable order", rev), ("all variables incl. zero powers, order x2,x0,x1", with_zero), ("powers split into unit entries, interleaved", split), ("split, reversed, leading (x1,0)", split_rev), ("canonical + trailing (x0,0)", zero_tail)]
+    };
+    let decode = |t: &SparseTerm| -> Option<Vec<usize>> {
+        let mut ev = vec![0usize; 3];
+        for (v, p) in t.iter() {
+            if *v >= 3 {
+                return None;
+            }
+            ev[*v] += p;
+        }
+        Some(ev)
+    };
+    ctx.bound("sparse_term", "monomials x0^e0 x1^e1 x2^e2, e_i <= 2 (27), 6 input lists each: all ordered pairs of (monomial, input list); cmp transitivity on all 27^3 triples");
+    ctx.sweep("sparse_term/pairs", 27 * 27, |i, loc| {
+        let [ib, ia] = unrank(i, [27, 27]);
+        let (ea, eb) = (expo(ia), expo(ib));
+        let (ina, inb) = (inputs(&ea), inputs(&eb));
+        let same = ea == eb;
+        let (ca, cb) = (SparseTerm::new(ina[0].1.clone()), SparseTerm::new(inb[0].1.clone()));
+        let c_canon = ca.cmp(&cb);
+        if loc.sampling() {
+            loc.sample(format!("SparseTerm exponents a={ea:?} b={eb:?}"));
+        }
+        loc.class_if(same, "pair_equal");
+        for (na, la) in &ina {
+            for (nb, lb) in &inb {
+                let what = || format!("SparseTerm::new({la:?}) [{na}] vs SparseTerm::new({lb:?}) [{nb}]; exponents {ea:?} vs {eb:?}");
+                let (ta, tb) = (SparseTerm::new(la.clone()), SparseTerm::new(lb.clone()));
+                if decode(&ta) != Some(ea.clone()) || decode(&tb) != Some(eb.clone()) {
+                    loc.fail_at("seq_value", format!("{}: stored {:?} / {:?} do not denote the monomials", what(), &*ta, &*tb));
+                    continue;
+                }
+                loc.class_if(la != &ina[0].1 || lb != &inb[0].1, "term_from_unnormalised_input");
+                loc.class_if(same && la != lb, "equal_via_different_sequences");
+                rel(loc, &ta, &tb, same, &what);
+                let (c, r, pc) = (ta.cmp(&tb), tb.cmp(&ta), ta.partial_cmp(&tb));
+                loc.check_at("ord", (c == Ordering::Equal) == same && r == c.reverse() && pc == Some(c) && c == c_canon, || {
+                    format!("{}: cmp={c:?} reverse cmp={r:?} partial_cmp={pc:?}; cmp of the canonical inputs={c_canon:?}; model same={same} (want: Equal iff same, antisymmetric, independent of the input list)", what())
+                });
+            }
+        }
+    });
+    ctx.sweep("sparse_term/cmp_transitive", 27 * 27 * 27, |i, loc| {
+        let [ic, ib, ia] = unrank(i, [27, 27, 27]);
+        let t = |k: u64| SparseTerm::new(inputs(&expo(k))[0].1.clone());
+        let (a, b, c) = (t(ia), t(ib), t(ic));
+        if a.cmp(&b) != Ordering::Greater && b.cmp(&c) != Ordering::Greater {
+            loc.class_if(ia != ib && ib != ic, "ord_chain_of_three_distinct");
+            loc.check_at("ord_transitive", a.cmp(&c) != Ordering::Greater, || format!("SparseTerm exponents a={:?} <= b={:?} <= c={:?} but a > c", expo(ia), expo(ib), expo(ic)));
+        }
+    });
+}
+
+/// `MontgomeryAffine` (a coordinate pair): same iff both coordinates agree as integers
+fn mont_affine_checks<P: te::MontCurveConfig>(ctx: &mut Ctx, name: &str, vals: &[BigUint])
+where
+    P::BaseField: FpAccess,
+{
+    type B<P> = <P as ark_ec::CurveConfig>::BaseField;
+    let p = <B<P> as FpAccess>::modulus_big();
+    let m = Mont::new(&p, <B<P> as FpAccess>::NLIMBS);
+    let fe: Vec<B<P>> = vals.iter().map(|v| <B<P> as FpAccess>::from_raw(&m.encode(v))).collect();
+    let k = vals.len() as u64;
+    ctx.bound(&format!("montgomery_affine/{name}"), format!("{k} coordinate values: all {} points (x,y), all ordered pairs", k * k));
+    ctx.sweep(&format!("montgomery_affine/{name}"), k * k * k * k, |i, loc| {
+        let [yb, xb, ya, xa] = unrank(i, [k, k, k, k]);
+        let (xa, ya, xb, yb) = (xa as usize, ya as usize, xb as usize, yb as usize);
+        let same = vals[xa] == vals[xb] && vals[ya] == vals[yb];
+        let what = || format!("{name}: MontgomeryAffine a=({},{}) b=({},{})", vals[xa], vals[ya], vals[xb], vals[yb]);
+        if loc.sampling() {
+            loc.sample(what());
+        }
+        loc.class_if(same, "pair_equal");
+        let a = te::MontgomeryAffine::<P>::new(fe[xa], fe[ya]);
+        let b = te::MontgomeryAffine::<P>::new(fe[xb], fe[yb]);
+        rel(loc, &a, &b, same, &what);
+        // b with coordinates reached through arithmetic / the struct literal
+        let (bx, by) = ((fe[xb] + fe[ya]) - fe[ya], -(-fe[yb]));
+        if m.decode(&bx.raw()) == vals[xb] && m.decode(&by.raw()) == vals[yb] {
+            loc.class("equal_via_different_sequences");
+            let b2 = te::MontgomeryAffine::<P> { x: bx, y: by };
+            rel(loc, &b, &b2, true, &|| format!("{}: b vs b with computed coordinates", what()));
+            rel(loc, &a, &b2, same, &|| format!("{}: a vs b with computed coordinates", what()));
+        } else {
+            loc.fail_at("seq_value", format!("{}: (x+y)-y / -(-y) do not denote the coordinates (arithmetic, outside C19)", what()));
+        }
+    });
+}
+
+/// polynomial PRODUCERS whose intermediate coefficient vector can end in zeros (FFT products, by-value operators,
+/// dense-sparse mixes, scalar multiples, vanishing-polynomial products / divisions, long division, interpolation):
+/// each result compared (`==`, `!=`, Hash, is_zero) with the same polynomial built by `from_coefficients_vec`.
+/// Universe: all coefficient vectors of length `maxlen` over `alpha` (a, b), products of two of them as dividends.
+fn poly_producer_checks<F: FpAccess + FftField>(ctx: &mut Ctx, name: &str, alpha: &[u64], maxlen: usize, dom_sizes: &[usize], offsets: &[u64]) {
+    use ark_poly::univariate::DenseOrSparsePolynomial as DoS;
+    use ark_poly::{EvaluationDomain, Evaluations, GeneralEvaluationDomain, Radix2EvaluationDomain};
+    let pbig = F::modulus_big();
+    let p = pbig.to_u64_digits()[0];
+    let m = Mont::new(&pbig, 1);
+    let na = alpha.len() as u64;
+    let n = na.pow(maxlen as u32);
+    let max_dom = 1usize << F::TWO_ADICITY.min(20);
+    let m = &m;
+    let enc = move |v: &[u64]| -> Vec<F> { v.iter().map(|c| s_enc::<F>(m, *c)).collect() };
+    let dec = move |q: &DensePolynomial<F>| -> Vec<u64> { q.coeffs.iter().map(|c| s_dec(m, c)).collect() };
+    // domains with their model description (size, offset^size, points)
+    let mut doms: Vec<(Radix2EvaluationDomain<F>, usize, u64, Vec<u64>)> = Vec::new();
+    for sz in dom_sizes {
+        for h in offsets {
+            match Radix2EvaluationDomain::<F>::new(*sz).and_then(|d| d.get_coset(s_enc::<F>(m, *h))) {
+                Some(d) => {
+                    let pts: Vec<u64> = d.elements().map(|x| s_dec(m, &x)).collect();
+                    let g = s_dec(m, &d.group_gen);
+                    let ok = d.size() == *sz && pts.len() == *sz && mpow(g, *sz as u64, p) == 1 && (1..*sz as u64).all(|k| mpow(g, k, p) != 1) && pts.iter().enumerate().all(|(k, x)| *x == h * mpow(g, k as u64, p) % p);
+                    ctx.validate(ok, &format!("{name}: domain of size {sz} with offset {h}: points are h*g^k for a generator g of order {sz}"));
+                    doms.push((d, *sz, mpow(*h, *sz as u64, p), pts));
+                }
+                None => ctx.validate(false, &format!("{name}: domain of size {sz} with offset {h} exists")),
+            }
+        }
+    }
+    let doms = &doms;
+    ctx.bound(&format!("poly_producers/{name}"), format!("a, b: all {n} coefficient vectors of length {maxlen} over {alpha:?} (mod {p}), all ordered pairs; dividends a*b (degree <= {}); domains of size {dom_sizes:?} x offsets {offsets:?}", 2 * (maxlen - 1)));
+    ctx.sweep(&format!("poly_producers/{name}"), n * n, |i, loc| {
+        let [ib, ia] = unrank(i, [n, n]);
+        let cv = |k: u64| -> Vec<u64> { unrank_vec(k, &vec![na; maxlen]).iter().map(|d| alpha[*d as usize] % p).collect() };
+        let (ma, mb) = (strip(cv(ia)), strip(cv(ib)));
+        let (a0, b0) = (DensePolynomial::<F>::from_coefficients_vec(enc(&ma)), DensePolynomial::<F>::from_coefficients_vec(enc(&mb)));
+        let sb = SparsePolynomial::<F>::from(b0.clone());
+        let prod = pmul(&ma, &mb, p);
+        let pp = DensePolynomial::<F>::from_coefficients_vec(enc(&prod));
+        let what = || format!("{name}: a={ma:?} b={mb:?} (coefficients mod {p}, constant term first)");
+        if loc.sampling() {
+            loc.sample(what());
+        }
+        let w: &dyn Fn() -> String = &what;
+        // (route, expected coefficients, length of the un-stripped intermediate vector, result)
+        let mut rs: Vec<(String, Vec<u64>, usize, Option<DensePolynomial<F>>)> = Vec::new();
+        let (sum, dif) = (padd(&ma, &mb, p), psub(&ma, &mb, p));
+        let wide = ma.len().max(mb.len());
+        macro_rules! route {
+            ($nm:expr, $want:expr, $raw:expr, $f:expr) => {
+                rs.push(($nm.to_string(), $want, $raw, guard(loc, $nm, w, || $f)));
+            };
+        }
+        route!("a+b (by value)", sum.clone(), wide, a0.clone() + b0.clone());
+        route!("a+&b", sum.clone(), wide, a0.clone() + &b0);
+        route!("&a+b", sum.clone(), wide, &a0 + b0.clone());
+        route!("a-b (by value)", dif.clone(), wide, a0.clone() - b0.clone());
+        route!("a-&b", dif.clone(), wide, a0.clone() - &b0);
+        route!("&a-b", dif.clone(), wide, &a0 - b0.clone());
+        route!("&a+&sparse(b)", sum.clone(), wide, &a0 + &sb);
+        route!("&a-&sparse(b)", dif.clone(), wide, &a0 - &sb);
+        route!("a+=&sparse(b)", sum.clone(), wide, {
+            let mut t = a0.clone();
+            t += &sb;
+            t
+        });
+        route!("a-=&sparse(b)", dif.clone(), wide, {
+            let mut t = a0.clone();
+            t -= &sb;
+            t
+        });
+        route!("a+=&b", sum.clone(), wide, {
+            let mut t = a0.clone();
+            t += &b0;
+            t
+        });
+        route!("a-=&b", dif.clone(), wide, {
+            let mut t = a0.clone();
+            t -= &b0;
+            t
+        });
+        route!("a.naive_mul(&b)", prod.clone(), prod.len(), a0.naive_mul(&b0));
+        // FFT product: needs a domain of size >= len(a)+len(b)-1
+        if !ma.is_empty() && !mb.is_empty() {
+            let need = (ma.len() + mb.len() - 1).next_power_of_two();
+            if need <= max_dom {
+                route!("&a*&b (FFT)", prod.clone(), need, &a0 * &b0);
+                route!("a*b (by value, FFT)", prod.clone(), need, a0.clone() * b0.clone());
+                route!("a*&b (FFT)", prod.clone(), need, a0.clone() * &b0);
+                route!("&a*b (FFT)", prod.clone(), need, &a0 * b0.clone());
+            } else {
+                loc.class("fft_product_without_domain_skipped");
+            }
+        } else {
+            route!("&a*&b (zero operand)", Vec::new(), 0, &a0 * &b0);
+        }
+        if !mb.is_empty() {
+            let (q, r) = pdivrem(&ma, &mb, p);
+            let qlen = (ma.len() + 1).saturating_sub(mb.len());
+            match guard(loc, "divide_with_q_and_r", w, || DoS::from(&a0).divide_with_q_and_r(&DoS::from(&b0))) {
+                Some(Some((lq, lr))) => {
+                    rs.push(("divide_with_q_and_r(a, b).quotient".into(), q.clone(), qlen, Some(lq)));
+                    rs.push(("divide_with_q_and_r(a, b).remainder".into(), r.clone(), ma.len(), Some(lr)));
+                }
+                Some(None) => loc.fail_at("seq_value", format!("{}: divide_with_q_and_r(a, b) is None (division, outside C19)", what())),
+                None => {}
+            }
+            match guard(loc, "divide_with_q_and_r(sparse divisor)", w, || DoS::from(&a0).divide_with_q_and_r(&DoS::from(&sb))) {
+                Some(Some((lq, lr))) => {
+                    rs.push(("divide_with_q_and_r(a, sparse(b)).quotient".into(), q.clone(), qlen, Some(lq)));
+                    rs.push(("divide_with_q_and_r(a, sparse(b)).remainder".into(), r.clone(), ma.len(), Some(lr)));
+                }
+                Some(None) => loc.fail_at("seq_value", format!("{}: divide_with_q_and_r(a, sparse(b)) is None (division, outside C19)", what())),
+                None => {}
+            }
+            // (a*b + a) / b = a + (a / b), remainder a mod b: dividends of degree up to 2*(maxlen-1)
+            let dividend = padd(&prod, &ma, p);
+            let dd = DensePolynomial::<F>::from_coefficients_vec(enc(&dividend));
+            let (q2, r2) = pdivrem(&dividend, &mb, p);
+            match guard(loc, "divide_with_q_and_r(a*b+a, b)", w, || DoS::from(&dd).divide_with_q_and_r(&DoS::from(&b0))) {
+                Some(Some((lq, lr))) => {
+                    rs.push(("divide_with_q_and_r(a*b+a, b).quotient".into(), q2.clone(), (dividend.len() + 1).saturating_sub(mb.len()), Some(lq)));
+                    rs.push(("divide_with_q_and_r(a*b+a, b).remainder".into(), r2, dividend.len(), Some(lr)));
+                }
+                Some(None) => loc.fail_at("seq_value", format!("{}: divide_with_q_and_r(a*b+a, b) is None (division, outside C19)", what())),
+                None => {}
+            }
+            route!("a/b (by value)", q.clone(), qlen, a0.clone() / b0.clone());
+            route!("&a/&b", q.clone(), qlen, &a0 / &b0);
+            route!("&(a*b+a)/&b", q2, (dividend.len() + 1).saturating_sub(mb.len()), &dd / &b0);
+        }
+        // vanishing polynomials x^n - h^n: products and divisions (dividends a*b and a)
+        for (d, sz, hn, _) in doms.iter() {
+            let mut z = vec![0u64; sz + 1];
+            z[0] = (p - hn % p) % p;
+            z[*sz] = 1;
+            let (qv, rv) = pdivrem(&prod, &z, p);
+            match guard(loc, "divide_by_vanishing_poly", w, || pp.divide_by_vanishing_poly(*d)) {
+                Some((lq, lr)) => {
+                    rs.push((format!("(a*b).divide_by_vanishing_poly(size {sz}, h^n={hn}).quotient"), qv, prod.len().saturating_sub(*sz), Some(lq)));
+                    rs.push((format!("(a*b).divide_by_vanishing_poly(size {sz}, h^n={hn}).remainder"), rv, prod.len().min(*sz), Some(lr)));
+                }
+                None => {}
+            }
+            if ib == 0 {
+                rs.push((format!("a.mul_by_vanishing_poly(size {sz}, h^n={hn})"), pmul(&ma, &z, p), if ma.is_empty() { *sz } else { ma.len() + sz }, guard(loc, "mul_by_vanishing_poly", w, || a0.mul_by_vanishing_poly(*d))));
+                let gd = GeneralEvaluationDomain::<F>::Radix2(*d);
+                rs.push((format!("a.mul_by_vanishing_poly(General, size {sz}, h^n={hn})"), pmul(&ma, &z, p), if ma.is_empty() { *sz } else { ma.len() + sz }, guard(loc, "mul_by_vanishing_poly(General)", w, || a0.mul_by_vanishing_poly(gd))));
+            }
+        }
+        if ib == 0 {
+            for f in [0u64, 1, 2, p - 1] {
+                let fe: F = s_enc(m, f);
+                rs.push((format!("a*{f} (by value)"), pscale(&ma, f, p), if f == 0 { 0 } else { ma.len() }, guard(loc, "a*f", w, || a0.clone() * fe)));
+                rs.push((format!("&a*{f}"), pscale(&ma, f, p), if f == 0 { 0 } else { ma.len() }, guard(loc, "&a*f", w, || &a0 * fe)));
+            }
+            // interpolation from the model's evaluations over every domain that determines a
+            for (d, sz, hn, pts) in doms.iter() {
+                if *sz < ma.len() {
+                    continue;
+                }
+                let evals: Vec<F> = pts.iter().map(|x| s_enc::<F>(m, peval(&ma, *x, p))).collect();
+                let ev = Evaluations::from_vec_and_domain(evals, *d);
+                rs.push((format!("Evaluations(size {sz}, h^n={hn}).interpolate_by_ref()"), ma.clone(), *sz, guard(loc, "interpolate_by_ref", w, || ev.interpolate_by_ref())));
+                rs.push((format!("Evaluations(size {sz}, h^n={hn}).interpolate()"), ma.clone(), *sz, guard(loc, "interpolate", w, || ev.clone().interpolate())));
+            }
+        }
+        for (nm, want, rawlen, r) in &rs {
+            let Some(r) = r else { continue };
+            let stored = dec(r);
+            if strip(stored.clone()) != *want {
+                loc.fail_at("seq_value", format!("{}: `{nm}` gives {stored:?}, model {want:?} (arithmetic, outside C19)", what()));
+                continue;
+            }
+            loc.class("equal_via_different_sequences");
+            // the route's natural intermediate vector is longer than the result: the producer has to strip
+            loc.class_if(*rawlen > want.len(), "producer_must_strip_trailing_zeros");
+            loc.class_if(stored.len() != want.len(), "result_with_trailing_zero_coefficients");
+            let canon = DensePolynomial::<F>::from_coefficients_vec(enc(want));
+            rel(loc, &canon, r, true, &|| format!("{}: `{nm}` (stored coefficients {stored:?}) vs from_coefficients_vec({want:?})", what()));
+            loc.check_at("predicates", r.is_zero() == want.is_empty() && (*r == DensePolynomial::<F>::zero()) == want.is_empty(), || format!("{}: `{nm}` (stored {stored:?}): is_zero / == zero()", what()));
+            // a different polynomial (constant term + 1) must not compare equal
+            let mut other = want.clone();
+            if other.is_empty() {
+                other.push(1);
+            } else {
+                other[0] = (other[0] + 1) % p;
+            }
+            let other = DensePolynomial::<F>::from_coefficients_vec(enc(&strip(other)));
+            rel(loc, r, &other, false, &|| format!("{}: `{nm}` (stored {stored:?}) vs the polynomial with constant term + 1", what()));
+        }
+    });
+}
+
 // ------------------------------------------------------------------ drivers
 macro_rules! tiny {
     ($F:ty, $n:expr, $name:expr, $ctx:expr, $seen:expr) => {
@@ -2085,14 +2961,31 @@ fn main() {
     let mut ctx = Ctx::from_args("C19");
     ctx.promote_quick(); // the thorough bounds of this check cost only seconds
     ctx.require(&["equal_via_different_sequences", "projective_rescaled", "identity_noncanonical", "ext_order_tie_on_high_coeff", "hashmap_dedup"]);
+    // (the classes `same_value_different_limbs` and `result_with_trailing_zero_coefficients` are observations of a
+    // non-canonical stored representation: they have no hit on a library that keeps its representations canonical
+    // and therefore cannot be mandatory; `producer_must_strip_trailing_zeros` is their input-side counterpart)
+    ctx.require(&[
+        "ext_order_high_coeff_overrides_low",
+        "ext_order_orientation_discriminating",
+        "ext_order_orientation_probe",
+        "affine_vs_projective",
+        "opposite_points",
+        "bigint_order_tie_on_top_limb",
+        "producer_must_strip_trailing_zeros",
+        "term_from_unnormalised_input",
+        "pair_equal",
+        "curve_over_extension_field",
+        "projective_rescaled_by_non_subfield_Z",
+    ]);
     ctx.assume("oracle: raw Montgomery limbs decoded with limbs*R^-1 mod p (num-bigint); projective points decoded with u64 model arithmetic (toy) / C01-C02-checked field operations (shipped); never the library's ==, cmp, Hash or into_affine");
     ctx.assume("hash digests are taken with std DefaultHasher::new() (fixed keys); containers use BuildHasherDefault<DefaultHasher> like HashMapPippenger");
-    ctx.assume("extension order: the doc says 'ordered lexicographically'; the significant-first coefficient is the HIGHEST one (c1 for quadratic, c2 for cubic), recursively - the order the point-compression sign rule relies on");
+    ctx.assume("extension order: the rustdoc of Ord for QuadExtField / CubicExtField reads '`QuadExtField` elements are ordered lexicographically.' / '`CubicExtField` elements are ordered lexicographically.' and does not name the most significant coefficient; demanded: a total order consistent with equality that is lexicographic with, per tower level, either the highest or the lowest coefficient first - the choice is read off one probe pair per level and type (sweeps ext_order_calibration/*, recorded under bounds ext_order_observed/*) and must then hold for ALL pairs of that type; the integer order at the prime-field level");
     ctx.assume("distinct values with equal digests are legal for Hash: counted as a metric class, never a violation");
     ctx.assume("sequences whose VALUE is wrong (arithmetic/group-law/bilinearity defects of C01-C08) are filed under the sites seq_value / pairing_value, separate from the eq/hash/ord/predicates sites of C19");
     ctx.assume("short-Weierstrass Affine with infinity=true and junk x,y is only constructible through #[doc(hidden)] fields; every API route to the affine identity (identity(), zero(), default(), into_affine, normalize_batch, From) is compared instead");
     ctx.assume("DenseMultilinearExtension/SparseMultilinearExtension special zero (num_vars = 0) is the library's documented convention: results with a different num_vars are not compared with n-variable objects");
-    ctx.assume("no Ord is implemented for curve points or polynomials (nothing to check); PairingOutput derives Ord from the target field");
+    ctx.assume("no Ord is implemented for curve points or polynomials (nothing to check); PairingOutput and MillerLoopOutput derive Ord from the target field; SparseTerm (monomials): only the total-order axioms and consistency with == are demanded of its Ord");
+    ctx.assume("Evaluations over two different point sets, and polynomials / multilinear extensions declared with different num_vars: the property does not say whether they are 'the same object' - only `==` => equal hashes (and symmetry of ==) is demanded there, the library's answer is recorded as a metric class");
     ctx.bound("prime_fields", "p <= 257 (thorough: p <= 1021): all ordered pairs of residues x ~35 sequences; larger toy moduli (1..13 limbs, derived + hand-written) and every shipped prime field: <= 60 boundary values (integers and raw-limb patterns), all ordered pairs");
     let seen = Mutex::new(BTreeSet::new());
     algebra_mc::tiny_fields_derived!(tiny, &mut ctx, &seen);
@@ -2125,6 +3018,8 @@ fn main() {
 
     algebra_mc::toy_sw_curves!(swt, &mut ctx);
     algebra_mc::toy_te_curves!(tet, &mut ctx);
+    sw_ext_toy::<ext_curves::SwQ7A0>(&mut ctx, "SwQ7A0/F_49", Q2 { p: 7, beta: 6 }, 52);
+    sw_ext_toy::<ext_curves::SwQ13A>(&mut ctx, "SwQ13A/F_169", Q2 { p: 13, beta: 2 }, 172);
 
     sw_shipped::<ark_bls12_381::g1::Config>(&mut ctx, "bls12_381::g1");
     sw_shipped::<ark_bls12_381::g2::Config>(&mut ctx, "bls12_381::g2");
@@ -2134,10 +3029,25 @@ fn main() {
 
     pairing_checks::<ark_bls12_381::Bls12_381>(&mut ctx, "bls12_381");
     pairing_checks::<ark_mnt4_298::MNT4_298>(&mut ctx, "mnt4_298");
+    pairing_checks::<ark_bn254::Bn254>(&mut ctx, "bn254");
+    pairing_checks::<ark_bw6_761::BW6_761>(&mut ctx, "bw6_761");
 
     dense_poly_checks(&mut ctx);
     mv_poly_checks(&mut ctx);
     sparse_poly_checks(&mut ctx);
     mle_checks(&mut ctx);
+
+    // polynomial producers whose intermediate vectors end in zeros, compared with from_coefficients_vec
+    poly_producer_checks::<D5>(&mut ctx, "D5", &[0, 1, 2, 3, 4], 3, &[1, 2, 4], &[1, 2]);
+    poly_producer_checks::<algebra_mc::toy::gen_fields::D17>(&mut ctx, "D17", &[0, 1, 16, 6, 3], 3, &[2, 4, 8], &[1, 3]);
+    // Eq / Hash of further types
+    evaluations_checks(&mut ctx);
+    sparse_term_checks(&mut ctx);
+    mont_affine_checks::<algebra_mc::toy::gen_curves::TeP13>(&mut ctx, "TeP13", &(0..13u32).map(BigUint::from).collect::<Vec<_>>());
+    {
+        let p = <ark_curve25519::Fq as FpAccess>::modulus_big();
+        let vals = vec![BigUint::zero(), BigUint::one(), &p - 1u32, (&p - 1u32) >> 1usize, BigUint::from(GENERIC64)];
+        mont_affine_checks::<ark_curve25519::Curve25519Config>(&mut ctx, "curve25519", &vals);
+    }
     std::process::exit(ctx.finish());
 }
